@@ -936,6 +936,27 @@ package cli
 //@   ensures default: deref(into) == value && asType(c.args[old(len(c.args))].Value, "*values.Floats64Value") == into
 
 // user-defined values (C19): Var/VarOpt/VarArg declare the container around the caller's value, untouched
+//@ func VarParam.value()
+//@   ensures own-opt: isType(this, "VarOpt") ==> result == asType(this, "VarOpt").Value
+//@   ensures own-arg: isType(this, "VarArg") ==> result == asType(this, "VarArg").Value
+//@ func (VarOpt).value
+//@   ensures own: result == o.Value
+//@ func (VarArg).value
+//@   ensures own: result == a.Value
+//@ func (*Cmd).Var
+//@   requires recv: c != nil && c.optionsIdx != nil && c.argsIdx != nil && p != nil
+//@   requires value: (isType(p, "VarOpt") ==> asType(p, "VarOpt").Value != nil && (builtinValue(asType(p, "VarOpt").Value) ==> ival(asType(p, "VarOpt").Value) != 0)) &&
+//@       (isType(p, "VarArg") ==> asType(p, "VarArg").Value != nil && (builtinValue(asType(p, "VarArg").Value) ==> ival(asType(p, "VarArg").Value) != 0))
+//@   maypanic
+//@   ensures option: isType(p, "VarOpt") ==> len(c.options) == old(len(c.options)) + 1 && len(c.args) == old(len(c.args)) &&
+//@       c.options[old(len(c.options))].Name == asType(p, "VarOpt").Name && c.options[old(len(c.options))].Desc == asType(p, "VarOpt").Desc &&
+//@       c.options[old(len(c.options))].EnvVar == asType(p, "VarOpt").EnvVar && c.options[old(len(c.options))].HideValue == asType(p, "VarOpt").HideValue &&
+//@       c.options[old(len(c.options))].ValueSetByUser == asType(p, "VarOpt").SetByUser && c.options[old(len(c.options))].Value == asType(p, "VarOpt").Value
+//@   ensures argument: isType(p, "VarArg") ==> len(c.args) == old(len(c.args)) + 1 && len(c.options) == old(len(c.options)) &&
+//@       c.args[old(len(c.args))].Name == asType(p, "VarArg").Name && c.args[old(len(c.args))].Desc == asType(p, "VarArg").Desc &&
+//@       c.args[old(len(c.args))].EnvVar == asType(p, "VarArg").EnvVar && c.args[old(len(c.args))].HideValue == asType(p, "VarArg").HideValue &&
+//@       c.args[old(len(c.args))].ValueSetByUser == asType(p, "VarArg").SetByUser && c.args[old(len(c.args))].Value == asType(p, "VarArg").Value
+//@   ensures known-kind: isType(p, "VarOpt") || isType(p, "VarArg")
 //@ func (*Cmd).VarOpt
 //@   requires recv: c != nil && c.optionsIdx != nil && value != nil && (builtinValue(value) ==> ival(value) != 0)
 //@   maypanic
